@@ -219,3 +219,24 @@ func HXssNameNoEqT(kind int, idx int, pre int, post int) {
 	vAssert(!IsXSS(v), "text without < and = is never XSS")
 	vCover("checked")
 }
+
+// HXssEmbedT (C13): the embedding equation on attribute vectors that start with an unusual lead (a context's first
+// byte decides which state function sees it first): verdict(s, ctx) = verdict(embed_ctx(s), data).
+func HXssEmbedT(kind int, idx int, ctx int, lead int) {
+	var name string
+	switch kind {
+	case 0:
+		name = "on" + vBaseEvents[idx]
+	case 1:
+		name = vBaseBlacks[idx].name
+	case 2:
+		name = [...]string{"xmlns", "xlink"}[idx]
+	}
+	l := [...]string{"", "=", "/", ">", "'", "\"", "`", "= ", "a=b ", "=/", "='a'", "\x00", "//", "=>"}[lead]
+	s := l + vName(name, 0) + "=" + vB(vByteIn("ax1(")) + vNondetString(1)
+	pre := [...]string{"", "<a ", "<a b='", "<a b=\"", "<a b=`"}[ctx]
+	vAssert(isXSS(s, ctx) == isXSS(pre+s, html5FlagsDataState), "context verdict equals the verdict of the embedded markup")
+	vCover("checked")
+}
+
+const vNumLeads = 14
